@@ -1,6 +1,7 @@
 package eng
 
 import (
+	"os"
 	"fmt"
 	"go/ast"
 	"go/types"
@@ -78,6 +79,8 @@ func (pr *Program) VerifyFunc(fi *FuncInfo) (rep *FuncReport) {
 		var v *Value
 		if isCtxType(p.Type()) {
 			v = &Value{K: KCtx, Typ: p.Type(), W: wid}
+		} else if uv := x.uniformIfaceValue(s, p.Type(), "in."+name); uv != nil {
+			v = uv
 		} else {
 			v = x.namedValue(p.Type(), "in."+name, s)
 			if v.K == KPtr {
@@ -655,4 +658,123 @@ func (x *Exec) bindCaptured(s *State, cc *callCtx, fi *FuncInfo) {
 		}
 		cc.env.Bind(v, s.Alloc(val))
 	}
+}
+
+
+// uniformIfaceValue models a parameter of an interface type declared in the repository by a symbolic value of the one
+// concrete type whose methods every implementer of the interface inherits (e.g. amm.Order -> *amm.BaseOrder: UserOrder
+// and PoolOrder embed *BaseOrder and do not override its accessors). Methods that some implementer overrides are left
+// unmodelled (havoc). The check over implementers is mechanical and repeated on every load.
+func (x *Exec) uniformIfaceValue(s *State, t types.Type, name string) *Value {
+	named, ok := t.(*types.Named)
+	if !ok || named.Obj().Pkg() == nil || !strings.Contains(named.Obj().Pkg().Path(), "/comdex/") {
+		return nil
+	}
+	it, ok := named.Underlying().(*types.Interface)
+	if !ok || it.NumMethods() == 0 {
+		return nil
+	}
+	var impls []*types.Named
+	for _, pi := range x.Pr.Pkgs {
+		if pi.P == nil || pi.P.Types == nil {
+			continue
+		}
+		sc := pi.P.Types.Scope()
+		for _, n := range sc.Names() {
+			tn, ok := sc.Lookup(n).(*types.TypeName)
+			if !ok || tn.IsAlias() {
+				continue
+			}
+			nt, ok := tn.Type().(*types.Named)
+			if !ok {
+				continue
+			}
+			if _, isI := nt.Underlying().(*types.Interface); isI {
+				continue
+			}
+			if strings.HasSuffix(pi.P.PkgPath, "_test") || strings.Contains(n, "Mock") {
+				continue
+			}
+			if types.Implements(types.NewPointer(nt), it) || types.Implements(nt, it) {
+				impls = append(impls, nt)
+			}
+		}
+	}
+	if len(impls) == 0 {
+		return nil
+	}
+	// concrete function per (method, implementer)
+	owner := map[*types.Named]int{}
+	uniform := map[string]*types.Func{}
+	over := map[string]bool{}
+	for i := 0; i < it.NumMethods(); i++ {
+		m := it.Method(i)
+		var f0 *types.Func
+		for _, nt := range impls {
+			obj, _, _ := types.LookupFieldOrMethod(types.NewPointer(nt), true, m.Pkg(), m.Name())
+			f, _ := obj.(*types.Func)
+			if f == nil {
+				over[m.Name()] = true
+				continue
+			}
+			if f0 == nil {
+				f0 = f
+			} else if f0 != f {
+				over[m.Name()] = true
+			}
+		}
+		if f0 != nil && !over[m.Name()] {
+			uniform[m.Name()] = f0
+			rt := f0.Type().(*types.Signature).Recv().Type()
+			if pt, ok := rt.(*types.Pointer); ok {
+				rt = pt.Elem()
+			}
+			if rn, ok := rt.(*types.Named); ok {
+				owner[rn]++
+			}
+		}
+	}
+	var core *types.Named
+	for rn, c := range owner {
+		if core == nil || c > owner[core] || (c == owner[core] && rn.Obj().Name() < core.Obj().Name()) {
+			core = rn
+		}
+	}
+	if core == nil || !(types.Implements(types.NewPointer(core), it) || types.Implements(core, it)) {
+		return nil
+	}
+	for mname, f := range uniform {
+		rt := f.Type().(*types.Signature).Recv().Type()
+		if pt, ok := rt.(*types.Pointer); ok {
+			rt = pt.Elem()
+		}
+		if rt != types.Type(core) {
+			over[mname] = true
+		}
+	}
+	pt := types.NewPointer(core)
+	dyn := x.namedValue(pt, name, s)
+	if dyn.K == KPtr {
+		s.Assume(Not(dyn.NilT))
+	}
+	x.collectInputs(s, name, dyn)
+	if os.Getenv("GOVC_DEBUG_IFACE") != "" {
+		fmt.Fprintf(os.Stderr, "DEBUG iface dyn=%s cell=%d heap=%s\n", dyn.String(), dyn.Cell, s.Heap[dyn.Cell].String())
+	}
+	var ov []string
+	for m := range over {
+		ov = append(ov, m)
+	}
+	sort.Strings(ov)
+	var in []string
+	for _, nt := range impls {
+		in = append(in, nt.Obj().Name())
+	}
+	sort.Strings(in)
+	x.note("IFACE-UNIFORM: %s modelled by %s (implementers %v inherit its methods; overridden and left unmodelled: %v)", named.Obj().Name(), pt.String(), in, ov)
+	if x.ifaceOver == nil {
+		x.ifaceOver = map[*Value]map[string]bool{}
+	}
+	x.ifaceOver[dyn] = over
+	return &Value{K: KOpaque, Typ: t, Dyn: dyn}
 }
